@@ -315,8 +315,8 @@ def concFile (threads : List (List Bytes)) : Nat → List (Option Nat) → Bytes
 
 /-- Concurrent writers: every retained file is a concatenation of whole records; per thread the
 records present are in that thread's order, without repetition, and are a suffix of what the
-thread had acknowledged (older ones may have left with whole discarded files). Thread 0 is the
-pre-existing content. Empty records are dropped beforehand. -/
+thread had acknowledged (older ones may have left with whole discarded files). The last thread is
+the pre-existing content (tried last: a tiny pre-existing file may be a prefix of a record). Empty records are dropped beforehand. -/
 def mergeSuffixOfWhole (threads : List (List Bytes)) (files : List Bytes) : Bool :=
   let ths := threads.map (fun t => t.filter (fun r => !r.isEmpty))
   let total := (ths.map List.length).sum
@@ -385,7 +385,7 @@ def handleSeq (cas obs : List String) : Answer :=
 def handleConc (cas obs : List String) : Answer :=
   withConc cas obs fun cc =>
     let pre := cc.c.preItems.map (·.bytes)
-    let ok := cc.wellAcked && mergeSuffixOfWhole (pre :: cc.acked) (cc.c.files cc.snap)
+    let ok := cc.wellAcked && mergeSuffixOfWhole (cc.acked ++ [pre]) (cc.c.files cc.snap)
     { model := if ok then cc.acksS ++ "!" ++ cc.snapS else cc.serial,
       spec := if ok then "ok" else
         "FAIL:retained files are not whole acknowledged records in per-thread order (suffix by whole files);sig=" ++ cc.c.sig "C05" ++ "-conc",
